@@ -27,7 +27,7 @@ fn run(cases: &str, out: &str, start: usize) {
     // keep panic messages out of the way; the outcome class is what is recorded
     std::panic::set_hook(Box::new(|_| {}));
     let all: Vec<String> = std::io::BufReader::new(f).lines().map(|l| l.unwrap()).collect();
-    let is_net = |l: &str| l.starts_with("lsn ") || l.starts_with("lsnpipe ") || l.starts_with("tls ") || l.starts_with("tlsq ") || l.starts_with("tlsrude ") || l.starts_with("ctcp ");
+    let is_net = |l: &str| l.starts_with("lsn ") || l.starts_with("lsnpipe ") || l.starts_with("tls ") || l.starts_with("tlsq ") || l.starts_with("tlsrude ") || l.starts_with("tlsre ") || l.starts_with("ctcp ");
     for (i, line) in all.iter().enumerate() {
         let line = line.clone();
         if i >= start && is_net(&line) {
